@@ -117,7 +117,7 @@ func execOp(line string) (res string) {
 	if len(ws) < 2 {
 		return "bad-op"
 	}
-	if ws[0] == "nest" {
+	if ws[0] == "nest" || ws[0] == "drift" {
 		// nest <entry> <hex> <count> ...: a large input given by its repeated segments
 		doc, ok := segments(ws[2:])
 		if !ok {
@@ -439,7 +439,7 @@ func (r *runner) batch(ops []string) ([]string, string, string) {
 // watchdog so that machine load cannot produce a DIVERGE.
 func (r *runner) run(op string, confirm bool) (string, string) {
 	timeout := r.timeout
-	if strings.HasPrefix(op, "deep ") || strings.HasPrefix(op, "nest ") {
+	if strings.HasPrefix(op, "deep ") || strings.HasPrefix(op, "nest ") || strings.HasPrefix(op, "drift ") {
 		timeout = 30 * r.timeout // a megabyte of brackets: seconds of honest work before the stack limit
 		confirm = false
 	}
@@ -743,9 +743,53 @@ func (g *gen) generate(thorough bool) {
 		g.randomBytes(1500)
 	}
 	g.nestCases(thorough)
+	g.driftCases()
 	// a megabyte of brackets: oracle only (the model answers the same question at 10x the limit above)
 	g.ops = append(g.ops, "deep 5b 1000000 -")
 	g.rep.Count("gen:deep-nesting")
+}
+
+// driftCases: the depth limit must not depend on what was parsed before.  N
+// closed objects/lists first (siblings in one list, or earlier statements of
+// a series on the same decoder), then a value nested just above the limit, or
+// N above it: it must be refused with jsonx.tooDeep, and nothing may crash.
+func (g *gen) driftCases() {
+	l := g.limit
+	add := func(kind string, segs ...string) {
+		op := "drift " + kind
+		for i := 0; i+1 < len(segs); i += 2 {
+			op += " " + hx.Hex([]byte(segs[i])) + " " + segs[i+1]
+		}
+		if g.seen[op] {
+			return
+		}
+		g.seen[op] = true
+		g.ops = append(g.ops, op)
+		g.rep.Count("gen:depth-limit-after-closed-siblings")
+		g.rep.Count("entry:" + kind)
+	}
+	for _, n := range []int{1, 100, 10000, 1000000} {
+		for _, d := range []int{l + 1, n + l + 1} {
+			ns, ds := strconv.Itoa(n), strconv.Itoa(d)
+			for _, sib := range []string{"{},", "[],", "{a:[]},"} {
+				if n >= 1000000 && sib != "{}," {
+					continue
+				}
+				if n >= 1000000 { // a 3 MB input: one value and one series case each
+					add("unmarshal", "[", "1", sib, ns, "[", ds, "]", ds, "]", "1")
+					add("series", "t "+strings.TrimSuffix(sib, ",")+"\n", ns, "t ", "1", "[", ds, "]", ds)
+					continue
+				}
+				for _, kind := range []string{"tojson", "unmarshal"} {
+					add(kind, "[", "1", sib, ns, "[", ds, "]", ds, "]", "1")
+					add(kind, "{k:[", "1", sib, ns, "{a:", ds)
+				}
+				st := "t " + strings.TrimSuffix(sib, ",") + "\n"
+				add("series", st, ns, "t ", "1", "[", ds, "]", ds)
+				add("series", st, ns, "t ", "1", "{a:", ds, "1", "1", "}", ds, "\nu 1\n", "1")
+			}
+		}
+	}
 }
 
 // nestCases: nestings around the limit (limit-1, limit, limit+1, 10x), closed
@@ -844,6 +888,17 @@ func classOf(res string) string {
 	return ws[0]
 }
 
+// opSize is the input length of a nest/drift op.
+func opSize(op string) int {
+	ws := strings.Fields(op)
+	n := 0
+	for i := 2; i+1 < len(ws); i += 2 {
+		k, _ := strconv.Atoi(ws[i+1])
+		n += k * len(hx.UnHex(ws[i]))
+	}
+	return n
+}
+
 // runDriver runs the Lean driver with an unlimited stack: without a nesting
 // limit the model recurses as deep as the input nests.
 func runDriver(driver string, lines []string) ([]string, error) {
@@ -864,7 +919,7 @@ func main() {
 	rep.Rule = "op = (entry point, input bytes); entry points: jsonx.ToJSON, jsonx.Unmarshal, Decoder.DecodeSeries, strtoken.Parse, " +
 		"the jsonx token stream; inputs: valid documents, all their prefixes, every single-token deletion/insertion, token soups " +
 		"(exhaustive small scopes + random), invalid UTF-8, unterminated strings/comments/brackets, with and without final newline, " +
-		"number-leaf boundaries, error-cap boundaries, nestings around the depth limit (limit-1, limit, limit+1, 10x; lists, objects, mixed; closed and unclosed), random bytes; distinct = distinct op line; non-trivial = every op"
+		"number-leaf boundaries, error-cap boundaries, nestings around the depth limit (limit-1, limit, limit+1, 10x; lists, objects, mixed; closed and unclosed), deep values after 1..1e6 closed siblings / earlier series statements, random bytes; distinct = distinct op line; non-trivial = every op"
 	j := hx.NewJournal(f.Work)
 	run := &runner{timeout: 2 * time.Second, j: j}
 	defer run.close()
@@ -904,7 +959,9 @@ func main() {
 	const hangBudget = 8 // per entry point: after that many hangs the entry point's remaining ops are skipped
 	skipped := 0
 	kindOf := func(op string) string { return strings.SplitN(op, " ", 2)[0] }
-	longOp := func(op string) bool { return strings.HasPrefix(op, "deep ") || strings.HasPrefix(op, "nest ") }
+	longOp := func(op string) bool {
+		return strings.HasPrefix(op, "deep ") || strings.HasPrefix(op, "nest ") || strings.HasPrefix(op, "drift ")
+	}
 	record := func(i int, res, detail string) {
 		op := ops[i]
 		kind := kindOf(op)
@@ -913,6 +970,10 @@ func main() {
 		case res == "DIVERGE":
 			hangs[kind]++
 			rep.Fail(kind+"-hang", fmt.Sprintf("%s did not return on this input (%s)", kind, detail), []string{op})
+		case kind == "drift" && !(strings.HasPrefix(res, "errs=") && strings.Contains(res, " first=jsonx.tooDeep@")):
+			// whatever was parsed and closed before, a value nested deeper than the limit must be refused
+			rep.Fail("depth-limit-drifts", fmt.Sprintf("after closed objects/lists (siblings or earlier statements on the same "+
+				"decoder) a value nested deeper than the limit was not refused with jsonx.tooDeep: %s %s", res, detail), []string{op})
 		case res == "panic" || strings.HasPrefix(res, "panic "):
 			key := kind + "-panic"
 			if kind == "deep" || kind == "nest" || strings.Contains(detail, "stack overflow") || strings.Contains(detail, "stack exceeds") {
@@ -1011,7 +1072,7 @@ func main() {
 	var mops []string
 	var midx []int
 	for i, op := range ops {
-		if strings.HasPrefix(op, "deep ") || impl[i] == "skipped" {
+		if strings.HasPrefix(op, "deep ") || impl[i] == "skipped" || strings.HasPrefix(op, "drift ") && opSize(op) > 400000 {
 			continue
 		}
 		mops = append(mops, op)
